@@ -8,7 +8,7 @@ TECHNIQUE = ("Coq proof: an inductive invariant of the transcribed DB write path
              "extracted DB model against the real kv.DB on session-heavy request streams, and forced schedules on the real leaderController + "
              "sessionManager (gate on the end of the cleanup's List) with real 60-250 ms timers")
 LEVEL_TEXT = ("Theorems in Coq (Properties/C14.v). In every state reachable from an empty DB by any sequence of client requests on user keys "
-              "(plain / conditional / session / indexed puts, deletes, delete-ranges with either strategy, several operations per key in one batch, "
+              "(plain / conditional / session / indexed / sequence puts, deletes, delete-ranges with either strategy, several operations per key in one batch, "
               "failed requests), session creations, ATOMIC session ends, term updates and restarts, ShadowKey(s,k) is stored iff k holds a record "
               "whose session is s (c14_shadow_mirror, c14_invariant_reachable/_preserved); a put naming a session that does not exist is rejected "
               "and changes no record, session or shadow key, in every well-formed state (c14_dead_session_rejected); a successful put makes its "
@@ -32,16 +32,17 @@ LEVEL_NOTE = ("Trusted: Coq kernel, extraction (ExtrOcamlBasic), the Go harnesse
               "sessions leg checks expiry times against the START of the last arming call with a 0.6 x timeout bound only. SessionMetadata "
               "(de)serialisation and KeyToId are abstracted (Section variables / hex digits without sign). c14_leader_init_finds_session_partial assumes that "
               "Initialize does not fail on another key and that no other listed key parses to the same id (true of DBs written through "
-              "createSession, exercised on the real code by the leader-change scenarios, not part of the proved invariant). Sequence puts are "
-              "outside c14_request (a sequence put that lands on an existing key never calls deleteShadow: C16). The client's heartbeat cadence "
+              "createSession, exercised on the real code by the leader-change scenarios, not part of the proved invariant). Sequence puts are inside "
+              "c14_request since the repair of O-15 (the generated key is fresh: C16_Gen.generate_key_fresh); ephemeral sequential keys are "
+              "generated in their own db14 cases (atomic session ends only) and their verdicts carry the suffix ':sequence-put'. The client's heartbeat cadence "
               "(oxia/sessions.go: max(timeout/10, 2 s)) is not part of the claim.")
 TRUSTED = ["modelled not verified: Pebble (ordered map, atomic batches, snapshot iterators), protobuf, time.Timer / channels of the session goroutine",
            "url.PathEscape / %016x transcribed in Coq and compared with the Go functions on generated inputs (db leg of C12)"]
-ASSUMES = ["client requests stay on user keys (outside '__oxia/'), session puts name non-empty keys, no sequence deltas (c14_request)",
+ASSUMES = ["client requests stay on user keys (outside '__oxia/'), session puts name non-empty keys (c14_request)",
            "a time.Timer fires no earlier than its duration after (re)arming"]
 RULE = ("db14: one case = a fresh real DB driven through 15-45 steps (session creations, session-heavy requests on a 3-7 key set, atomic and "
         "two-step session ends with 1-3 interleaved requests of other clients, term updates, bulk delete-ranges over 99/100/101/130 keys with "
-        "ephemeral records), every response and dump digest compared with the extracted model, C14 verdicts evaluated on the full dump after "
+        "ephemeral records; a third of the cases: sequence puts under sessions with plain / ephemeral records sitting at the prefix keys), every response and dump digest compared with the extracted model, C14 verdicts evaluated on the full dump after "
         "every write; distinct by generator sub-seed; the three refutation witnesses run first. sessions: real leaderController + "
         "sessionManager per scenario (expiry without heartbeats, heartbeats then silence, leader change over the same WAL/DB, writes under "
         "dead sessions, takeovers, and session.delete() parked between its List and its Write on the CloseSession and the expiry path with 5 "
